@@ -114,6 +114,11 @@ def gen_dag_program(rnd):
         return ("sym", f"dg{rnd.randrange(n)}")
 
     def total():
+        if rnd.random() < 0.25:
+            # a difference of labels (a plain number once the layout is known) times a constant that is still pending
+            d = ("grp", ("bin", "-", ("sym", "after"), ("sym", "start")))
+            e = ("bin", "*", d, pick()) if rnd.random() < 0.6 else ("bin", "*", pick(), d)
+            return ("bin", "&", ("grp", e), apm.num(0o77777))
         e = ("bin", rnd.choice(["+", "-"]), pick(), pick())
         if rnd.random() < 0.5:
             e = ("bin", rnd.choice(["+", "-"]), e, pick())
